@@ -115,7 +115,13 @@ C20Scen(m, cap, f, e) ==
         faults |-> fl,
         run |-> [Run("tcp", m, FALSE, 1, 4, 1, e) EXCEPT !.listen_port = IF cap = "port_closed" THEN 0 ELSE 443],
         path |-> PathOf([t \in 1..4 |-> IF t >= 3 THEN destReplies ELSE <<[form |-> "te", from |-> R4(t), delay_us |-> 1000 * t]>>])]
+\* the caller's context is cancelled before / while the SACK path connects: a cancellation is not "SACK unavailable" - the request
+\* ends as the policy says or with an error, but never with a SYN trace for a target that supports SACK
+C20Cancel(m, cap, c) ==
+    [C20Scen(m, cap, "none", 0) EXCEPT !.id = @ \o "/cancel" \o ToString(c), !.label = @ \o "/cancelled", !.extra = @ @@ [cancel_at_start |-> (c = 0)]]
+    @@ [cancel_us |-> c]
 C20All(u) == { C20Scen(m, cap, f, 0) : m \in TP!Methods, cap \in TP!Caps, f \in TP!Faults }
+             \cup { C20Cancel(m, cap, c) : m \in TP!Methods, cap \in TP!Caps, c \in {0, 1, 2500} }
              \cup { C20Scen(m, cap, "none", 2) : m \in TP!Methods, cap \in TP!Caps }
 
 ---------------------------------------------------------------------------
